@@ -244,6 +244,10 @@ class InstanceWriteProvider(BaseProvider):
                 if prop.type == 'reference':
                     if prop.value is None:
                         continue
+                    # An end point without namespace is in the namespace of
+                    # the new instance
+                    if prop.value.namespace is None:
+                        prop.value.namespace = namespace
                     # Exception if end point does not exist
                     self.validate_reference_property_endpoint_exists(prop,)
 
@@ -407,6 +411,10 @@ class InstanceWriteProvider(BaseProvider):
                             _format("Reference property {0!A} association "
                                     "end {1!A} with None value not allowed ",
                                     prop.name, prop.value))
+                    # An end point without namespace is in the namespace of
+                    # the instance
+                    if prop.value.namespace is None:
+                        prop.value.namespace = namespace
                     # Note: The original value may be None (NULL)
                     if original_instance[pn] is None or \
                             prop.value != original_instance[pn]:
